@@ -23,6 +23,8 @@ run unfix_f15 C18
 run unfix_f16 C03
 run unfix_f17 C12
 run unfix_f18 C14
+run unfix_f19 C10 C13
+run unfix_f20 C14
 run m01_shift_loses_byte C05
 run m02_crc_low_byte_only C06
 run m03_single_write_no_expect_empty C04
